@@ -201,6 +201,9 @@ func (m *Machine) ndStub(name string, args []Value) Value {
 		return tt.Or(m.term(args[0]), m.term(args[1]))
 	case "Implies":
 		return tt.Or(tt.Not(m.term(args[0])), m.term(args[1]))
+	case "Context":
+		m.context, _ = args[0].(Str).concrete()
+		return nil
 	case "Expect":
 		label, _ := args[0].(Str).concrete()
 		m.expects = append(m.expects, label)
